@@ -57,6 +57,14 @@ class C14(Prop):
             t = self.tabs3[j % len(self.tabs3)]
             yield {"k": "mlayer", "rows": ins_to_state(t), "r": j % 4, "qs": rng.choice(([1], [2, 3], [1, 2, 3], [3, 1], [2])),
                    "seed": self.seed + j}
+        # measurement layers on qubits beyond index 63 of a 66 / 70-qubit register (block on the last 3 qubits, rest mixed)
+        from .c02 import embed_tableau
+        for j in range(12 if thorough else 4):
+            nn = (66, 70)[j % 2]
+            t = self.tabs3[j % len(self.tabs3)]
+            rows, r = embed_tableau(ins_to_state(t), j % 3, nn)
+            qs = ([nn], [nn - 1, nn - 2], [nn - 3, nn], [64, 65, nn - 1])[j % 4]
+            yield {"k": "mlayer", "n": nn, "rows": rows, "r": r, "qs": qs, "seed": self.seed + 500 + j}
         # post-selection on all pure (and some mixed: refusal) tableaux, N <= 2
         for n in (1, 2):
             herm = enum.herm(n)
@@ -86,7 +94,7 @@ class C14(Prop):
             except Exception as e:
                 rec["exc"] = _exc(e)
             return [rec]
-        n = 3
+        n = scn.get("n", 3)
         if k == "mlayer":
             items = [{"k": "mz", "qs": scn["qs"], "how": "mz"}]
             rec = {"op": "traj", "via": "MeasureLayer", "prog": [circ.wire_item(items[0])], "pre": {"rows": scn["rows"], "r": scn["r"]}}
